@@ -134,8 +134,11 @@ structure St where
   mayMark : List (Nat × Ch × Nat) := [] -- records that may be marked D now
   clean : Option CleanReq := none
   clock : Nat := 0
-  cut : List Nat := []                  -- messages with a report awaiting its bounce paragraph when the daemon last died
-                                        -- (`addbounce` may have been cut short: bounce/<m> created or partly written)
+  cut : List Nat := []                  -- messages with a report awaiting its bounce paragraph when the daemon died in the crash
+                                        -- whose dump is being read (`addbounce` may have been cut short: bounce/<m> created or
+                                        -- partly written); emptied together with `crashed`
+  crashed : Bool := false               -- mode flag: the daemon has just died in a crash (`.restart`) and nothing has happened since
+                                        -- but the reading of the queue as the crash left it (the crash events below) and arrivals
 
 def tabGet : List (Nat × MsgSt) → Nat → MsgSt
   | [], _ => {}
@@ -205,7 +208,8 @@ inductive Ev
   | unlinkBounce (m : Nat)
   | utimes (m : Nat) (c : Ch) (t : Nat)
   | tick (clock : Nat)
-  | restart                                                     -- the daemon (and cleaner, spawners) died and restarted
+  | restart                                                     -- CRASH: the daemon (and cleaner, spawners) died and restarted
+  -- what the crash did to the files; accepted only in the crash window (`St.crashed`, see "crash mode" below):
   | crashMarks (m : Nat) (c : Ch) (marks : List Bool)           -- machine crash: un-fsynced D bytes may have reverted
   | crashBounce (m : Nat) (content : Bytes)                     -- crash: bounce/<m> (never fsynced) has this content now
   | crashTodoFiles (m : Nat)                                    -- machine crash: files being rebuilt from todo/<m> are garbage
@@ -296,7 +300,9 @@ def feedReports (cfg : Cfg) (s : St) (c : Ch) : Bytes → St
 
 /-! ### the monitor -/
 
-def accept (cfg : Cfg) (s : St) : Ev → Option St
+/-- The guards and effects of the events, for a state whose crash mode (`crashed`, `cut`) is already what the event is judged
+in — see `accept` below, which is the monitor. -/
+def acceptCore (cfg : Cfg) (s : St) : Ev → Option St
   | .newmsg m sender rcpts =>
     let ms := s.msg m
     if s.clean.isNone ∧ !ms.mess ∧ !ms.intd ∧ ms.todo.isNone ∧ ms.info.isNone ∧ ms.loc.isNone ∧ ms.rem.isNone ∧ ms.bounce.isNone
@@ -458,30 +464,85 @@ def accept (cfg : Cfg) (s : St) : Ev → Option St
   | .utimes m c _ => if s.clean.isNone ∧ ((s.msg m).chan c).isSome then some s else none
   | .tick t => if s.clock ≤ t then some { s with clock := t } else none
   | .restart => some { s with slots := [], dlineLoc := ([], 0), dlineRem := ([], 0), notes := [], mayMark := [], clean := none,
-                              cut := s.notes.map (·.m) }
+                              cut := s.notes.map (·.m), crashed := true }
   | .crashMarks m c marks =>
     let ms := s.msg m
     match ms.chan c with
     | none => none
     | some rs =>
       -- only un-fsynced single-byte D marks may revert to T; nothing else changes
-      if s.clean.isNone ∧ s.slots.isEmpty ∧ marks.length = rs.length ∧ (List.range rs.length).all (fun i => !(marks.getD i false) || (rs.getD i ⟨false, []⟩).done) then
+      -- (only while the dump taken right after a crash is read: `crashed`)
+      if s.crashed = true ∧ s.clean.isNone ∧ s.slots.isEmpty ∧ marks.length = rs.length ∧ (List.range rs.length).all (fun i => !(marks.getD i false) || (rs.getD i ⟨false, []⟩).done) then
         some (s.upd m fun ms => ms.setChan c (some ((rs.zip marks).map fun (r, d) => { r with done := d })))
       else none
   | .crashBounce m content =>
     -- after a crash bounce/<m> (never fsynced) has this content.  The file exists in the model, or the daemon died between a
     -- `D` report and the end of its `addbounce` (then the file may just have been created / partly written).  The paragraphs
     -- that were in the file are exempt (`lostRecs`) unless the old content is still there as a prefix (nothing was lost).
-    if s.clean.isNone ∧ s.slots.isEmpty ∧
+    -- Only while the dump taken right after a crash is read (`crashed`; `cut` is of that crash).
+    if s.crashed = true ∧ s.clean.isNone ∧ s.slots.isEmpty ∧
        ((s.msg m).bounce.isSome ∨ ((s.msg m).todo.isNone ∧ (s.msg m).info.isSome ∧ s.cut.contains m)) then
       some (s.upd m fun ms => { ms with bounce := some content, lost := true, lastInject := false,
                                          lostRecs := (if (ms.bounce.getD []).isPrefixOf content then [] else ms.inFile) ++ ms.lostRecs })
     else none
   | .crashTodoFiles m =>
-    if s.clean.isNone ∧ s.slots.isEmpty ∧ (s.msg m).todo.isSome then
+    if s.crashed = true ∧ s.clean.isNone ∧ s.slots.isEmpty ∧ (s.msg m).todo.isSome then
       some (s.upd m fun ms => { ms with infoSynced := false, locSynced := false, remSynced := false,
                                          info := ms.info.map (fun _ => []), loc := ms.loc.map (fun _ => []), rem := ms.rem.map (fun _ => []) })
     else none
+
+/-! ### crash mode
+
+A crash is the event `.restart`; what the crash did to the files is reported by `crashMarks` / `crashBounce` /
+`crashTodoFiles`, which are possible only *right after* it: `.restart` sets the flag `crashed`, the three crash-damage events
+require it, and every other event — except the arrival of a message: qmail-queue runs independently of the daemon, also while
+it is down — clears it together with `cut` (the interrupted `addbounce` calls of that crash) before it is judged.  So
+"damaged by a crash" in the theorems means: in the window between a crash and the first thing the restarted daemon (or
+qmail-clean) does. -/
+
+/-- events that leave the crash mode as it is: the crash, the damage found in its dump, and arrivals -/
+def Ev.inCrashWindow : Ev → Bool
+  | .restart => true
+  | .crashMarks _ _ _ => true
+  | .crashBounce _ _ => true
+  | .crashTodoFiles _ => true
+  | .newmsg _ _ _ => true
+  | _ => false
+
+/-- the crash window is closed -/
+def St.calm (s : St) : St := { s with crashed := false, cut := [] }
+
+/-- the state an event is judged in -/
+def St.before (s : St) (e : Ev) : St := if e.inCrashWindow then s else s.calm
+
+/-- **The monitor.** -/
+def accept (cfg : Cfg) (s : St) (e : Ev) : Option St := acceptCore cfg (s.before e) e
+
+theorem St.calm_tab (s : St) : s.calm.tab = s.tab := rfl
+theorem St.calm_msg (s : St) (m : Nat) : s.calm.msg m = s.msg m := rfl
+theorem St.calm_slots (s : St) : s.calm.slots = s.slots := rfl
+theorem St.calm_notes (s : St) : s.calm.notes = s.notes := rfl
+theorem St.calm_mayMark (s : St) : s.calm.mayMark = s.mayMark := rfl
+theorem St.calm_clean (s : St) : s.calm.clean = s.clean := rfl
+theorem St.calm_clock (s : St) : s.calm.clock = s.clock := rfl
+
+theorem St.before_tab (s : St) (e : Ev) : (s.before e).tab = s.tab := by unfold St.before; split <;> rfl
+theorem St.before_msg (s : St) (e : Ev) (m : Nat) : (s.before e).msg m = s.msg m := by unfold St.before; split <;> rfl
+theorem St.before_slots (s : St) (e : Ev) : (s.before e).slots = s.slots := by unfold St.before; split <;> rfl
+theorem St.before_notes (s : St) (e : Ev) : (s.before e).notes = s.notes := by unfold St.before; split <;> rfl
+theorem St.before_mayMark (s : St) (e : Ev) : (s.before e).mayMark = s.mayMark := by unfold St.before; split <;> rfl
+theorem St.before_clean (s : St) (e : Ev) : (s.before e).clean = s.clean := by unfold St.before; split <;> rfl
+
+/-- outside the crash window an event is judged in the calm state … -/
+theorem accept_calm (cfg : Cfg) (s : St) (e : Ev) (h : e.inCrashWindow = false) : accept cfg s e = acceptCore cfg s.calm e := by
+  simp [accept, St.before, h]
+/-- … inside it, in the state as it is -/
+theorem accept_window (cfg : Cfg) (s : St) (e : Ev) (h : e.inCrashWindow = true) : accept cfg s e = acceptCore cfg s e := by
+  simp [accept, St.before, h]
+
+theorem accept_restart (cfg : Cfg) (s : St) :
+    accept cfg s .restart = some { s with slots := [], dlineLoc := ([], 0), dlineRem := ([], 0), notes := [], mayMark := [], clean := none,
+                                          cut := s.notes.map (·.m), crashed := true } := rfl
 
 def acceptAll (cfg : Cfg) : St → List Ev → Option St
   | s, [] => some s
